@@ -39,8 +39,11 @@ def make(d, mode="w", normalize=None, inputs=None, **kwargs):
     obj = cls(normalize_kv=norm, **kwargs)
     degs, szs = d["degree"], d["size"]
     inputs = {} if inputs is None else inputs
+    combined = d["kind"] != "curve" and len(d["P"]) % 5 == 2          # the documented all-direction setters (degree, knotvector)
     if d["kind"] == "curve":
         obj.degree = degs[0]
+    elif combined:
+        obj.degree = list(degs)
     elif d["kind"] == "surface":
         obj.degree_u, obj.degree_v = degs
     else:
@@ -69,6 +72,13 @@ def make(d, mode="w", normalize=None, inputs=None, **kwargs):
     else:
         inputs["P"] = [list(p) for p in d["P"]]
         obj.set_ctrlpts(inputs["P"], *szs)
+    if combined:
+        inputs["kv0"], inputs["kv1"] = list(d["kv"][0]), list(d["kv"][1])
+        if d["kind"] == "volume":
+            inputs["kv2"] = list(d["kv"][2])
+        kvs_ = [inputs["kv%d" % i] for i in range(len(d["kv"]))]
+        obj.knotvector = [tuple(k) for k in kvs_] if d.get("kv_tuple") else kvs_
+        return obj
     if d.get("kv_tuple"):
         # knot vectors handed over as tuples (a normalising shape converts whatever sequence it is given; a shape created with
         # normalize_kv=False keeps the tuple, and every operation of the pinned tree works on it as on a list)
